@@ -111,6 +111,7 @@ package bep44
 //@   callsite (dht/bep44.Store).Get get-under-lock: wheld(w.mu)
 //@   callsite (dht/bep44.Store).Del del-under-lock: wheld(w.mu)
 //@   ensures served-only-if-fresh: result0 != nil ==> tn(result0.created) + math(w.exp) > tn(lastnow())
+//@   ensures encodable: result0 != nil ==> encok(result0.V)
 //@   ensures item-without-error: result0 != nil ==> result1 == nil
 //@   ensures error-without-item: result0 == nil ==> result1 != nil
 
